@@ -76,6 +76,11 @@ impl TransportSenderT for FailOnUnsub {
         if msg.contains("\"unsub\"") { return Err(Injected); }
         self.0.send(msg).map_err(|_| Injected)
     }
+    /// closing takes a while, as with any real socket: the other background task runs meanwhile
+    async fn close(&mut self) -> Result<(), Injected> {
+        tokio::time::sleep(std::time::Duration::from_millis(100)).await;
+        Ok(())
+    }
 }
 
 /// the transport fails exactly on the unsubscribe call that follows a dropped subscription; a call pending then must fail with the cause
@@ -95,7 +100,7 @@ pub fn send_fails_on_unsubscribe(_a: &Value) -> Value {
         let _ = c2s_rx.recv().await;
         drop(sub); // -> unsubscribe call -> transport send fails
         let res = pending.await.unwrap();
-        let ok = matches!(res, Err(Error::RestartNeeded(_)));
+        let ok = matches!(&res, Err(Error::RestartNeeded(e)) if e.to_string().contains("injected send failure"));
         let connected = c.is_connected();
         let _ = Closed;
         let violation = !ok || connected;
